@@ -117,4 +117,11 @@ var propMeta = map[string]*PropMeta{
 		Assumptions: append([]string{"leader WAL is never truncated by size (the property assumes followers can catch up)", "in-stream loss/duplication/reordering is not injected; re-delivery after reconnect is (resume from the last acknowledged offset)"}, commonAssumptions...),
 		Probes: []string{"fault.node.stop", "fault.node.kill", "fault.node.crashpoint", "fault.link.cut", "fault.link.stall", "fault.node.replaced-empty", "fault.link.broken-delivery", "probe.routing-checked"},
 	},
+	"C20": {
+		Level: "exploration", QuickSecs: 60, ThoroughSecs: 900, Recycle: 40,
+		Rule: "one case = one seeded plan executed three ways in one bubble: (1) a cluster (1 leader, 1-3 partitions) whose every link message - WAL entries, field lists with their expressions, raw series rows, flat rows - passes through the real msgpack RPC codec (Marshal -> bytes -> Unmarshal into fresh objects), with the round-trip law asserted per message (decoded Fields.Equals the original, byte-identical keys/series/values); (2) a standalone node behind the real rpcserver, fed through the real rpc client (snappy conn, gRPC, codec) over in-memory pipes; (3) a standalone node driven through the embedded API. Schemas draw from the whole field grammar (SUM/MIN/MAX/COUNT/AVG/WAVG, BOUNDED, IF, binary arithmetic, PERCENTILE), points carry all supported scalar types, queries cover pushdown (flat rows) and non-pushdown plans (leader re-groups follower series with follower-supplied decoded expressions), derived fields, HAVING comparisons, subqueries. Oracle: all three answers are equal as multisets, query metadata over RPC equals the embedded source's. Non-trivial = a compared query returned rows.",
+		Real:  append([]string{"rpc.Codec (msgpack with expression extensions) on every cluster message", "rpc client + rpcserver + gRPC v1.22 + snappy conn over net.Pipe (insert and query streams)"}, realCL...), Stub: stubCL,
+		Assumptions: append([]string{"the pure round-trip law for arbitrary expression trees is covered only as far as generated schemas and queries carry those trees across the link (no stand-alone codec fuzzer: that would be another technique)"}, commonAssumptions...),
+		Probes: []string{"codec.fields", "codec.row", "codec.flatrow", "codec.point", "probe.rpc-query-compared"},
+	},
 }
